@@ -2213,6 +2213,9 @@ f_objects (void)
         }
       else if (func)
         {
+          /* as in call_efun_callback(): apply() itself does not refuse a destructed object */
+          if (current_object->flags & O_DESTRUCTED)
+            error ("*Object destructed during efun callback.");
           push_object (ob);
           v = apply (func, current_object, 1, ORIGIN_EFUN);
           if (!v)
